@@ -98,6 +98,7 @@ type recorder struct {
 	faults  map[int]bool // indices (0-based, in order of fallible calls) that fail
 	tfaults map[int]map[int]bool // per request (C08): request -> indices of its own fallible calls that fail
 	tnFall  map[int]int
+	relockNeverReturns bool // C11: the application's lock is not re-entrant - a Lock of an id this request holds never returns
 	newIDs  int
 	held    map[string]int
 	panicky bool
@@ -196,6 +197,9 @@ func (r *recorder) Lock(c context.Context, id *url.URL) error {
 		}
 		r.rec(entry{Kind: "lock", Name: us(id), Ans: answer{Kind: "err"}})
 		return errInjected
+	}
+	if r.relockNeverReturns && r.held[us(id)] > 0 {
+		panic("relock: Lock of " + us(id) + " while this request holds it - with a lock that is not re-entrant the request never returns")
 	}
 	r.held[us(id)]++
 	r.rec(entry{Kind: "lock", Name: us(id), Ans: answer{Kind: "ok"}})
@@ -929,8 +933,11 @@ func (w *recWriter) Write(b []byte) (int, error) {
 	return len(b), nil
 }
 
+// relockNeverReturns is set by the C11 harness: every recorder then treats a re-taken lock as a request that never returns.
+var relockNeverReturns bool
+
 func newRecorder(w *world, cfg *config, faults []int) *recorder {
-	r := &recorder{w: w, cfg: cfg, faults: map[int]bool{}, held: map[string]int{}}
+	r := &recorder{w: w, cfg: cfg, faults: map[int]bool{}, held: map[string]int{}, relockNeverReturns: relockNeverReturns}
 	for _, f := range faults {
 		r.faults[f] = true
 	}
